@@ -963,9 +963,9 @@ func (c *Conn) handleBdat(arg string) {
 	// The chunk follows the command whether or not we accept it, so it has
 	// to be consumed before the next command can be read.
 	discardChunk := func() {
-		c.lineLimitReader.LineLimit = 0
+		c.lineLimitReader.setLimit(0)
 		io.Copy(ioutil.Discard, io.LimitReader(c.text.R, int64(size)))
-		c.lineLimitReader.LineLimit = c.server.MaxLineLength
+		c.lineLimitReader.setLimit(c.server.MaxLineLength)
 	}
 
 	if !c.fromReceived || len(c.recipients) == 0 {
@@ -1042,7 +1042,7 @@ func (c *Conn) handleBdat(arg string) {
 		}()
 	}
 
-	c.lineLimitReader.LineLimit = 0
+	c.lineLimitReader.setLimit(0)
 
 	chunk := io.LimitReader(c.text.R, int64(size))
 	_, err = io.Copy(c.bdatPipe, chunk)
@@ -1058,14 +1058,14 @@ func (c *Conn) handleBdat(arg string) {
 		}
 
 		c.reset()
-		c.lineLimitReader.LineLimit = c.server.MaxLineLength
+		c.lineLimitReader.setLimit(c.server.MaxLineLength)
 		return
 	}
 
 	c.bytesReceived += int64(size)
 
 	if last {
-		c.lineLimitReader.LineLimit = c.server.MaxLineLength
+		c.lineLimitReader.setLimit(c.server.MaxLineLength)
 
 		c.bdatPipe.Close()
 
